@@ -335,3 +335,61 @@ contract(F + "AbstractDissimilarity.valid_alignments",
                   cl("forall(k, 0, len(result[0]), exists(a, 0, Nkeys(continuum), result[1][k][a] < cntAt(a)))",
                      "C01 C07 C11", name="never-all-empty")],
          serves={"C01", "C02", "C07", "C11"})
+
+# ------------------------------------------------------------------------------------------ _build_arrays_alignment  (C03 D5)
+# The array is indexed by the RANK of each slot's annotator in the sorted set of the annotators named by the first unitary alignment,
+# not by the slot's position: two unitary alignments giving the same unit to the same annotators in another order are encoded alike.
+from .alignment import ALIGN as _ALIGN    # noqa: E402
+ARR_MACROS = VIEW_MACROS + [
+    Macro("L", [], "alignment.unitary_alignments"),
+    Macro("nS", [], "len(alignment.unitary_alignments[0]._n_tuple)"),
+    Macro("nameAt", ["t", "s"], "alignment.unitary_alignments[t]._n_tuple[s][0]"),
+    Macro("slotAt", ["t", "s"], "alignment.unitary_alignments[t]._n_tuple[s][1]"),
+    Macro("CC", [], "some(alignment.continuum)"),
+    Macro("catidx2", [], "ite(isnone(self.categories), Cidx(CC()), idxof(self.categories))"),
+    Macro("catmem2", [], "ite(isnone(self.categories), Cat(CC()), members(self.categories))"),
+    Macro("catn2", [], "ite(isnone(self.categories), Ncat(CC()), size(self.categories))"),
+    Macro("enc", ["row", "t", "s"],
+          "ite(isnone(slotAt(t, s)), row[0] == -1 and row[1] == -1 and row[2] == -1 and row[3] == -1, "
+          "row[0] == some(slotAt(t, s)).s and row[1] == some(slotAt(t, s)).e and row[2] == some(slotAt(t, s)).e - some(slotAt(t, s)).s and "
+          "row[3] == ite(some(slotAt(t, s)).haslab, catidx2()[some(slotAt(t, s)).lab], catn2()))"),
+    # every unitary alignment names exactly the annotators of the first one, each once
+    Macro("well_formed", [], "forall(t, 0, len(L()), len(L()[t]._n_tuple) == nS() and "
+                             "forall(s, 0, nS(), exists(s0, 0, nS(), nameAt(t, s) == nameAt(0, s0))) and "
+                             "forall(s1, 0, nS(), forall(s2, s1 + 1, nS(), nameAt(t, s1) != nameAt(t, s2))))"),
+]
+
+contract(F + "AbstractDissimilarity._build_arrays_alignment",
+         params={"self": DISSIM(), "alignment": _ALIGN()}, returns=NdArray("f32", 3), modifies=[], macros=ARR_MACROS,
+         ghost_vars={"AIDX": ("RInt", None), "AN": ("Int", None), "ARR0": ("A3Real", None)},
+         calls={"alignment.categories": "pygamma_agreement/alignment.py::Alignment.categories#attached"},
+         requires=["not isnone(alignment.continuum)", "len(L()) >= 1", "well_formed()",
+                   "forall(t, 0, len(L()), forall(s, 0, nS(), implies(not isnone(slotAt(t, s)) and some(slotAt(t, s)).haslab, "
+                   "catmem2()[some(slotAt(t, s)).lab])))",
+                   # units are valid units (Segment.duration is end - start only above pyannote's precision)
+                   "forall(t, 0, len(L()), forall(s, 0, nS(), implies(not isnone(slotAt(t, s)), some(slotAt(t, s)).e - some(slotAt(t, s)).s > 1e-6)))"],
+         raises={"AssertionError": {"iff": "not forall([(l, Real)], implies(Cat(CC())[l], catmem2()[l]))"}},
+         ensures=[cl("shape(result) == (len(L()), AN, 4) and AN == nS()", "C03", name="one-row-per-unitary-alignment-and-annotator"),
+                  cl("forall(s, 0, nS(), 0 <= AIDX[nameAt(0, s)] and AIDX[nameAt(0, s)] < AN) and "
+                     "forall(s1, 0, nS(), forall(s2, 0, nS(), (nameAt(0, s1) < nameAt(0, s2)) == (AIDX[nameAt(0, s1)] < AIDX[nameAt(0, s2)])))",
+                     "C03", name="AIDX-is-the-rank-of-the-annotator-name"),
+                  cl("forall(t, 0, len(L()), forall(s, 0, nS(), enc(result[t][AIDX[nameAt(t, s)]], t, s)))", "C03",
+                     name="D5-each-slot-encoded-at-its-annotator's-rank-whatever-its-position")],
+         loops={"L0": dict(match="for i, unitary_alignment in enumerate(alignment.unitary_alignments)",
+                           inv=["shape(alignment_array) == (len(L()), AN, 4)",
+                                "forall(t, 0, i, forall(s, 0, nS(), enc(alignment_array[t][AIDX[nameAt(t, s)]], t, s)))"]),
+                "L0.0": dict(match="for annotator, unit in unitary_alignment.n_tuple", index="kS",
+                             inv=["shape(alignment_array) == (len(L()), AN, 4)",
+                                  "forall(t, 0, i, forall(s, 0, nS(), enc(alignment_array[t][AIDX[nameAt(t, s)]], t, s)))",
+                                  "forall(s, 0, kS, enc(alignment_array[i][AIDX[nameAt(i, s)]], i, s))"])},
+         hooks=[("after", "annotators = ...", "AIDX = idxof(annotators)"),
+                ("after", "annotators = ...", "AN = size(annotators)"),
+                ("after", "annotators = ...", "model_inv wfset(annotators)"),
+                ("after", "annotator_i = ...", "assert annotator_i == AIDX[nameAt(i, kS)] and 0 <= annotator_i and annotator_i < AN"),
+                ("after", "annotator_i = ...", "assert forall(s, 0, nS(), implies(s != kS, AIDX[nameAt(i, s)] != annotator_i))"),
+                ("after", "annotator_i = ...", "ARR0 = raw(alignment_array)"),
+                ("after", "if unit is not None: ...", "assert enc(alignment_array[i][annotator_i], i, kS)"),
+                # the writes of this slot touch row (i, annotator_i) only
+                ("after", "if unit is not None: ...", "assert forall([t, r], implies(t != i or r != annotator_i, raw(alignment_array)[t][r] == ARR0[t][r]))"),
+                ("after", "if unit is not None: ...", "assert forall(s, 0, kS, raw(alignment_array)[i][AIDX[nameAt(i, s)]] == ARR0[i][AIDX[nameAt(i, s)]])")],
+         serves={"C03"})
